@@ -533,8 +533,35 @@ def check_vhistory(ctx, case):
         ctx.count()
 
 
+
+def check_ctorfee(ctx, case):
+    """The fee a Transaction object reports when it is made from inputs with known values and outputs (no fee given):
+    inputs minus outputs, a non-negative integer - or the constructor refuses (it does so for outputs above inputs)."""
+    _, tr, _cfg = _lib()
+    vin, vout = case['vin'], case['vout']
+    try:
+        inputs = [tr.Input(prev_txid=('00' * 32 if case['coinbase'] else '%064x' % (k + 1)),
+                           output_n=0xffffffff if case['coinbase'] else k, value=v, network='bitcoin')
+                  for k, v in enumerate(vin)]
+        outputs = [tr.Output(v, public_hash=PKH, network='bitcoin') for v in vout]
+        t = tr.Transaction(inputs, outputs, network='bitcoin', coinbase=case['coinbase'])
+        fee = t.fee
+    except Exception as e:
+        ctx.refusal('ctorfee.%s' % type(e).__name__)
+        if sum(vin) > sum(vout) and all(v > 0 for v in vin):
+            raise Discrepancy('ctorfee.refused', 'Transaction(inputs %r, outputs %r, coinbase=%r) raised %r' %
+                              (vin, vout, case['coinbase'], e), case)
+        return
+    if fee is None:
+        ctx.klass('ctorfee.not_reported')
+        return
+    if type(fee) is not int or fee < 0 or fee != sum(vin) - sum(vout):
+        raise Discrepancy('ctorfee.value', 'Transaction(inputs %r, outputs %r, coinbase=%r).fee = %r (%s); inputs minus '
+                          'outputs is %d' % (vin, vout, case['coinbase'], fee, type(fee).__name__, sum(vin) - sum(vout)),
+                          case)
+
 DISPATCH = {'parse': check_parse, 'format': check_format, 'numeric': check_numeric, 'output': check_output,
-            'table': check_table, 'vhistory': check_vhistory}
+            'table': check_table, 'vhistory': check_vhistory, 'ctorfee': check_ctorfee}
 
 
 def replay(ctx, case):
@@ -803,6 +830,25 @@ def run(ctx):
             ctx.sample(case)
         check_output(ctx, case)
     ctx.run_given('output', output_strategy(), prop_output, ctx.scale(300, 12000))
+
+    # fee reported by a transaction made from valued inputs and outputs
+    from hypothesis import strategies as fst
+    val = fst.one_of(fst.sampled_from([1, 2, 546, 10 ** 8, 50 * 10 ** 8, 21 * 10 ** 14]), fst.integers(1, 21 * 10 ** 14))
+    ctorfee = fst.fixed_dictionaries({'kind': fst.just('ctorfee'), 'coinbase': fst.booleans(),
+                                      'vin': fst.lists(val, min_size=1, max_size=1),
+                                      'vout': fst.lists(val, min_size=1, max_size=3)}).map(
+        lambda c: c if c['coinbase'] else dict(c, vin=c['vin'] * 2))
+    delta = fst.tuples(ctorfee, fst.sampled_from([None, None, 0, 1, -1, 123456, -123456])).map(
+        lambda t: t[0] if t[1] is None or sum(t[0]['vin']) + t[1] <= 0 else
+        dict(t[0], vout=[sum(t[0]['vin']) + t[1]]))
+
+    def prop_ctorfee(case):
+        ctx.klass('ctorfee.%s.%s' % ('coinbase' if case['coinbase'] else 'regular',
+                                     'above' if sum(case['vout']) > sum(case['vin']) else
+                                     'equal' if sum(case['vout']) == sum(case['vin']) else 'below'))
+        ctx.nt(('ctorfee', case['coinbase'], tuple(case['vin']), tuple(case['vout'])))
+        check_ctorfee(ctx, case)
+    ctx.run_given('ctorfee', delta, prop_ctorfee, ctx.scale(60, 3000))
 
     # one Value object over time (memoised conversions, in-place arithmetic)
     from hypothesis import strategies as hst
